@@ -9,7 +9,7 @@ import json, os
 from fractions import Fraction as Fr
 from core import *
 
-NEEDS = ["Grid", "GridProofs", "Paths", "Corr"]
+NEEDS = ["Grid", "GridProofs", "Paths", "Corr", "IndexedEquiv"]   # IndexedEquiv: E2 tie of _get_indexed_var_str
 T_END, DT = 1.0, 0.125
 KNOWN_ERR = ("ValueError", "KeyError", "IndexError", "TypeError")
 
@@ -30,8 +30,16 @@ def build(case, override=None):
             nodes[n] = NodeTemplate(name=n, path=None, operators={op: {"k": vals[0], "c": vals[1], "x": vals[2]}})
             shared[vals] = nodes[n]
     names = [n for n, *_ in case["nodes"]]
-    edges = [(f"{names[s]}/op/x", f"{names[t]}/op/r_in", None, {"weight": float(override.get(("w", j), Fr(w)))})
-             for j, (s, t, w) in enumerate(case["edges"])]
+    def attr(j, w):
+        a = {"weight": float(override.get(("w", j), Fr(w)))}
+        if case.get("delays"):       # [delay | None, spread | None] per edge: discrete delay (no spread) or gamma kernel (spread)
+            d, sp = case["delays"][j]
+            d = override.get(("d", j), None if d is None else Fr(d)); sp = override.get(("s", j), None if sp is None else Fr(sp))
+            a["delay"] = None if d is None else float(d)
+            if sp is not None:
+                a["spread"] = float(sp)
+        return a
+    edges = [(f"{names[s]}/op/x", f"{names[t]}/op/r_in", None, attr(j, w)) for j, (s, t, w) in enumerate(case["edges"])]
     c = CircuitTemplate(name="base" if not case.get("hier") else "flat", path=None, nodes=nodes, edges=edges)
     # hier = 1 | 2: the base circuit is itself hierarchical (inputs there need repair D89 = D30)
     for lvl, nm in zip(reversed(prefix(case)), ["mid", "base"][-len(prefix(case)):] if prefix(case) else []):
@@ -57,7 +65,7 @@ def targets(case):
         else:
             for s, t, *idx in spec["edges"]:       # [s, t] = parallel edge 0, [s, t, idx] = parallel edge idx
                 j = [j for j, (s2, t2, _) in enumerate(case["edges"]) if (s2, t2) == (s, t)][idx[0] if idx else 0]
-                tg.append(("w", j))
+                tg.append(({"weight": "w", "delay": "d", "spread": "s"}[spec.get("var", "weight")], j))
         out[key] = tg
     return out
 
@@ -82,7 +90,7 @@ def impl(case):
             pmap[key] = {"nodes": [pre(case) + n for n in spec["nodes"]], "vars": list(spec["vars"])}
         else:
             pmap[key] = {"edges": [(f"{pre(case)}{names[s]}/op/x", f"{pre(case)}{names[t]}/op/r_in", *idx) for s, t, *idx in spec["edges"]],
-                         "vars": ["weight"]}
+                         "vars": [spec.get("var", "weight")]}
     grid = {key: [float(Fr(v)) for v in vals] for key, vals in case["grid"]}
     if case.get("df_index") is not None:          # the grid as a DataFrame whose integer index is a permutation
         import pandas as pd
@@ -133,7 +141,66 @@ NAMES = ["A", "B", "C", "D"]
 def dy(rng, lo, hi, den=4):
     return str(Fr(rng.randint(lo * den, hi * den), den))
 
+def gen_delay_case(rng):
+    """sweeps over the `delay` / `spread` attribute of an edge: discrete delays (multiples of the step, incl. 0, 1 and >= 2 steps) and
+    gamma kernels with finely spaced delays on several time scales (two rows whose kernel rates differ by less than 0.005);
+    the model does not cover delays: labels / table in Coq, values against the separate real runs only"""
+    nn = rng.randint(2, 3)
+    nodes = [[NAMES[i], dy(rng, 0, 2), dy(rng, -2, 2), dy(rng, -1, 1)] for i in range(nn)]
+    pairs = [(s, t) for s in range(nn) for t in range(nn) if s != t]
+    rng.shuffle(pairs)
+    edges = [[s, t, str(Fr(rng.choice([-4, -3, -2, -1, 1, 2, 3, 4]), 4))] for s, t in pairs[:rng.randint(1, 2)]]
+    gamma = rng.random() < 0.5
+    scale = rng.choice([1, 8, 64, 64, 256])           # "seconds" ... "milliseconds": delays of 1 .. 64 time units at the same step
+    if gamma:
+        delays = [[str(Fr(scale) * rng.choice([1, 2])), None] for _ in edges]
+        delays = [[d, str(Fr(d) / rng.choice([2, 2, 2, 4]))] for d, _ in delays]      # dyadic, kernel order 4 or 16
+        j = rng.randrange(len(edges))
+        d0 = Fr(delays[j][0])
+        if rng.random() < 0.7:
+            var, vals = "delay", [d0, d0 + d0 / rng.choice([256, 512, 1024]), d0 * Fr(3, 2)] + ([d0 + d0 / 32] if rng.random() < 0.5 else [])
+        else:
+            sp = Fr(delays[j][1])
+            var, vals = "spread", [sp, sp + sp / rng.choice([64, 128]), sp / 2]
+    else:
+        delays = [[str(Fr(rng.choice([0, 1, 2, 3]), 8)), None] for _ in edges]
+        j = rng.randrange(len(edges))
+        var = "delay"
+        vals = [Fr(k, 8) for k in rng.sample([0, 1, 1, 2, 3, 4], rng.randint(2, 4))]
+    rng.shuffle(vals)
+    vals = list(dict.fromkeys(str(v) for v in vals))
+    pmap = [["p", "edges", {"edges": [[edges[j][0], edges[j][1]]], "var": var}]]
+    grid = [["p", vals]]
+    if rng.random() < 0.4:
+        i = rng.randrange(nn)
+        pmap.append(["q", "nodes", {"nodes": [NAMES[i]], "vars": ["op/k"]}])
+        grid.append(["q", [dy(rng, 0, 2) for _ in vals]])
+    return dict(nodes=nodes, edges=edges, delays=delays, pmap=pmap, grid=grid, permute=False,
+                outputs=[["x", "all/op/x"]], vectorize=rng.random() < (0.8 if gamma else 0.65))
+
+def delay_groups(case):
+    """per source node: the delays in steps of all spread-less edges from it, over all rows of the sweep (what the vectorized
+    compilation merges into one edge group)"""
+    if not case.get("delays"):
+        return []
+    tg = targets(case)
+    R = nrows(case)
+    groups = {}
+    for j, (s, t, w) in enumerate(case["edges"]):
+        d, sp = case["delays"][j]
+        if sp is not None:
+            continue
+        for r in range(R):
+            dr = d
+            for (key, vals) in case["grid"]:
+                if ("d", j) in tg[key]:
+                    dr = vals[r]
+            groups.setdefault(s, []).append(0 if dr is None else int(round(float(Fr(dr)) / DT)))
+    return list(groups.values())
+
 def gen_case(rng):
+    if rng.random() < 0.28:
+        return gen_delay_case(rng)
     perm_mid = rng.random() < 0.15     # 4 nodes, one edge per source node in the order 0, 2, 1, 3 (permuted in the middle only)
     nn = 4 if perm_mid else rng.randint(2, 3)
     nodes = [[NAMES[i], dy(rng, 0, 2), dy(rng, -2, 2), dy(rng, -1, 1)] for i in range(nn)]
@@ -246,7 +313,7 @@ Definition col_eqb (a b : col) := leqb String.eqb (fst a) (fst b) && leqb qeqb (
 (* observed: None = ValueError;  table rows, index names, columns of the DataFrame *)
 Definition observed := option (list (list Qc) * list string * list col).
 Record gcase := { base : circ; pm : list (list target); vals : list (list Qc); perm : bool; steps : nat;
-                  nodes : list string; reqs : list request; ob : observed; labs : option (list nat); vec : bool; pre : list string;
+                  nodes : list string; reqs : list request; ob : observed; labs : option (list nat); vec : bool; pre : list string; dgroups : list (list nat);
                   sep_grid : list col; sep_runs : list col }.
 Definition dt : Qc := mkq 1 8.
 Definition cname (r : nat) : string := "base_" ++ String (Ascii.ascii_of_nat (48 + r / 10)) (String (Ascii.ascii_of_nat (48 + r mod 10)) "").
@@ -273,6 +340,10 @@ Definition obs_eqb (a b : observed) : bool :=
   | Some (r1, i1, c1), Some (r2, i2, c2) => leqb (leqb qeqb) r1 r2 && leqb String.eqb i1 i2 && leqb col_eqb c1 c2
   | _, _ => false
   end.
+(* guard of the open finding: with vectorize=True no edge group (spread-less edges from one source variable, all rows) mixes a
+   delay of exactly one step with a delay of two or more steps *)
+Definition g_delay (c : gcase) : bool :=
+  negb (vec c && existsb (fun l => existsb (Nat.eqb 1) l && existsb (Nat.leb 2) l) (dgroups c)).
 Definition g_idx (c : gcase) : bool := idx_guard (base c) (pm c).
 Definition implO (c : gcase) : observed :=
   match grid_impl_gen @IDX@ (base c) (pm c) (vals c) (perm c) dt (steps c) with
@@ -336,7 +407,7 @@ def sep_views(case, out):
 def coq_case(case, out):
     tg = targets(case)
     key_order = [k for k, _ in case["grid"]]
-    pm = clist([clist([("TK" if kind == "k" else "TC" if kind == "c" else "TW") + f" {cnat(i)}" for kind, i in tg[k]]) for k in key_order])
+    pm = clist([clist([("TK" if kind == "k" else "TC" if kind == "c" else "TW") + f" {cnat(i)}" for kind, i in tg[k] if kind in "kcw"]) for k in key_order])
     vals = clist([clist([cq(v) for v in vs]) for _, vs in case["grid"]])
     reqs = []
     for key, p in case["outputs"]:
@@ -349,26 +420,29 @@ def coq_case(case, out):
         rows = clist([clist([cq(v) for v in r]) for r in out["rows"]])
         ob = f"Some ({rows}, {cstrs(out['index'])}, {ccols(out['cols'])})"
         steps = len(out["times"])
+        if case.get("delays"):      # delays are outside the model: Coq checks the table, the index and the labels; the values are
+            steps = 0               # compared with the separate real runs (okSep)
+            ob = f"Some ({rows}, {cstrs(out['index'])}, {ccols([[lab, []] for lab, _ in out['cols']])})"
         g, s = sep_views(case, out)
     return (f"{{| base := {ccirc(case)}; pm := {pm}; vals := {vals}; perm := {cbool(case['permute'])}; steps := {cnat(steps)}; "
             f"nodes := {cstrs([n for n, *_ in case['nodes']])}; reqs := {clist(reqs)}; ob := {ob}; "
-            f"vec := {cbool(case['vectorize'])}; pre := {cstrs(prefix(case))}; labs := {'None' if case.get('df_index') is None else '(Some ' + clist([cnat(i) for i in case['df_index']]) + ')'}; "
+            f"dgroups := {clist([clist([cnat(k) for k in g]) for g in delay_groups(case)])}; vec := {cbool(case['vectorize'])}; pre := {cstrs(prefix(case))}; labs := {'None' if case.get('df_index') is None else '(Some ' + clist([cnat(i) for i in case['df_index']]) + ')'}; "
             f"sep_grid := {ccols(g)}; sep_runs := {ccols(s)} |}}")
 
 def model_compare(ctx, cases, outs, tag):
-    badI, badS, badSep, gfan, gidx = [], [], [], [], []
+    badI, badS, badSep, gfan, gidx, gdel = [], [], [], [], [], []
     shard = 25
     for s in range(0, len(cases), shard):
         terms = [coq_case(c, o) for c, o in zip(cases[s:s + shard], outs[s:s + shard])]
         body = ("Definition cases : list gcase := " + clist(terms) + ".\n"
                 "Eval vm_compute in (mismatches okI cases).\nEval vm_compute in (mismatches okS cases).\n"
                 "Eval vm_compute in (mismatches okSep cases).\nEval vm_compute in (mismatches g_fanout cases).\n"
-                "Eval vm_compute in (mismatches g_idx cases).\n")
+                "Eval vm_compute in (mismatches g_idx cases).\nEval vm_compute in (mismatches g_delay cases).\n")
         ls = parse_nat_lists(coq_eval(ctx, f"c17_{tag}_{s}", HEADER, body))
-        assert len(ls) == 5, ls
-        gidx += [s + i for i in ls[4]]
+        assert len(ls) == 6, ls
+        gidx += [s + i for i in ls[4]]; gdel += [s + i for i in ls[5]]
         badI += [s + i for i in ls[0]]; badS += [s + i for i in ls[1]]; badSep += [s + i for i in ls[2]]; gfan += [s + i for i in ls[3]]
-    return badI, badS, badSep, gfan, ([] if "idx" in FIXES else gidx)
+    return badI, badS, badSep, gfan, ([] if "idx" in FIXES else gidx), ([] if "delay" in FIXES else gdel)
 
 def model_outputs(ctx, case, out):
     body = f"Definition c : gcase := {coq_case(case, out)}.\nEval vm_compute in (implO c, specO c, okSep c).\n"
@@ -393,11 +467,13 @@ def check(ctx):
     outs = run_impl(ctx, "c17", "impl", cases, per_case_timeout=300)
     crashed = [i for i, o in enumerate(outs) if not usable(o)]
     good = [i for i in range(len(cases)) if i not in crashed]
-    badI, badS, badSep, gfan, gidx = model_compare(ctx, [cases[i] for i in good], [outs[i] for i in good], "main")
+    badI, badS, badSep, gfan, gidx, gdel = model_compare(ctx, [cases[i] for i in good], [outs[i] for i in good], "main")
     badI = [good[i] for i in badI]; badSep = [good[i] for i in badSep]
     # the loud class is recognised by its exception; anything else outside the guard is judged like any other case
     gv = {good[i]: ["swept_edges_declared_at_top"] for i in gfan if outs[good[i]].get("raised") == "KeyError"}
     # the ignored edge idx explains a disagreement with the Spec only when the mechanism model predicts the observed sweep
+    for i in gdel:          # delays are outside the model: the class is recognised by its guard alone
+        gv.setdefault(good[i], []).append("one_step_delay_not_mixed")
     for i in gidx:
         if good[i] not in badI:
             gv.setdefault(good[i], []).append("swept_edge_is_parallel_edge_0")
@@ -413,13 +489,15 @@ def check(ctx):
             return isinstance(out, dict) and out.get("raised") == "KeyError"
         if not usable(out):
             return True
-        return bool(model_compare(ctx, [f["witness"]], [out], "wit_" + f["id"].replace("-", "_"))[1])
+        res = model_compare(ctx, [f["witness"]], [out], "wit_" + f["id"].replace("-", "_"))
+        return bool(res[1]) or bool(res[2])
     conclude(ctx, cases=cases, impl_out=outs, bad_spec=badS, bad_impl=badI, crashed=crashed, problem=problem, show=show,
              guard_viol=gv, witness_check=witness_check,
              spec_name="Grid.grid_spec (every row of the returned table simulated on its own) and the separate real runs",
              impl_name="Grid.grid_impl (assembled network)")
     nt = {canon(c) for c in cases if nontrivial(c)}
-    hist = dict(parallel_edges=sum(1 for c in cases if len({(e[0], e[1]) for e in c["edges"]}) < len(c["edges"])),
+    hist = dict(delay_sweeps=sum(1 for c in cases if c.get("delays")), gamma_sweeps=sum(1 for c in cases if c.get("delays") and any(sp for _, sp in c["delays"])),
+                parallel_edges=sum(1 for c in cases if len({(e[0], e[1]) for e in c["edges"]}) < len(c["edges"])),
                 edge_keys_with_idx=sum(1 for c in cases if any(k == "edges" and len(sp["edges"][0]) == 3 for _, k, sp in c["pmap"])),
                 circuit_as_yaml_path=sum(1 for c in cases if c.get("as_yaml")),
                 hierarchical_base=sum(1 for c in cases if c.get("hier")), hierarchical_base_with_inputs=sum(1 for c in cases if c.get("hier") and c.get("inputs")),
@@ -435,7 +513,8 @@ with_inputs=sum(1 for c in cases if c.get("inputs")),
     write_evidence(ctx, evaluations=len(cases), distinct_nontrivial=len(nt),
                    rule="random linear circuits (2-3 nodes, 1-3 edges, dyadic k, c, x0, weights) x random sweeps: 1-3 keys with disjoint target "
                         "sets (node parameters op/k, op/c on 1-3 nodes, both vars per key, edge weights on 1-2 edges incl. parallel edges addressed as (source, target) or (source, target, idx)), equal-length or permuted "
-                        "grids, base circuit flat or wrapped in 1-2 further hierarchy levels (a few of unequal length without permute -> ValueError), zipped grids also passed as a DataFrame whose integer index "
+                        "grids, base circuit flat or wrapped in 1-2 further hierarchy levels (a few of unequal length without permute -> ValueError), a fifth of the sweeps over the delay / spread attribute of an edge (discrete delays of 0, 1 and >= 2 steps; gamma kernels with finely "
+                        "spaced delays on several time scales; values against the separate real runs, labels and table against the model), zipped grids also passed as a DataFrame whose integer index "
                         "is a permutation, half of the sweeps with non-constant extrinsic input series on 1-2 nodes (also on nodes with incoming edges), nodes with identical values held as one shared NodeTemplate object, outputs by node name or 'all', vectorize on/off; "
                         "non-trivial = >= 2 rows; distinct = distinct canonical JSON",
                    samples=[cases[0] if cases else None],
